@@ -88,7 +88,13 @@ func parseIgnoreComment(comment string) (string, []Rule) {
 	// and a block comment is closed by "*/"
 	body := strings.TrimSpace(strings.TrimSuffix(strings.TrimSpace(comment), "*/"))
 	body = strings.TrimSpace(strings.TrimLeft(body, "#@*/ "))
-	ignoreType, body, _ := strings.Cut(body, " ")
+	// The directive and the rule list may be separated by any white space
+	ignoreType := body
+	if idx := strings.IndexAny(body, " \t"); idx >= 0 {
+		ignoreType, body = body[:idx], body[idx+1:]
+	} else {
+		body = ""
+	}
 
 	if supported, ok := supportedIgnoreTypes[ignoreType]; !ok || !supported {
 		return "", []Rule{}
